@@ -167,6 +167,21 @@ theorem involutive_flags_counterexample : ¬ involutive_statement := by
   subst h2
   simp [view, flagWitness] at h3
 
+/-- F15: a `CreateTableOp` built directly from `Column('email', String, index=True)`: the CREATE INDEX
+that `invoke` emits for the derived index is gone after two reversals -/
+def indexFlagWitness : Op :=
+  .createTable { name := "t", schema := none, cols := [⟨"email", "VARCHAR(50)", true, none, none⟩], cons := [],
+                 comment := none, extra := "", ixs := ["ix_t_email|email|False"] } none
+
+theorem involutive_index_counterexample :
+    ¬ (∃ r rr, indexFlagWitness.reverse = some r ∧ r.reverse = some rr ∧ view rr = view indexFlagWitness) := by
+  intro ⟨r, rr, h1, h2, h3⟩
+  simp [indexFlagWitness, Op.reverse] at h1
+  subst h1
+  simp [Op.reverse] at h2
+  subst h2
+  simp [view, indexFlagWitness] at h3
+
 theorem roundTrip_idem (c : ConsDef) : c.roundTrip.roundTrip = c.roundTrip := by
   cases c with
   | mk kind name table schema body deferrable initially =>
@@ -232,12 +247,21 @@ theorem involutive_op (o : Op) (hr : reversible o = true) (hc : clean o = true) 
     ∃ r rr, o.reverse = some r ∧ r.reverse = some rr ∧ view rr = view o := by
   cases o with
   | createTable t f =>
-    simp [clean] at hc; subst hc
+    simp [clean] at hc
+    obtain ⟨hf, hix⟩ := hc
+    subst hf
     cases t
+    simp at hix
+    subst hix
     exact ⟨_, _, rfl, rfl, by simp [view]⟩
   | dropTable n s f c e rev =>
-    simp [clean] at hc; subst hc
-    exact ⟨_, _, rfl, rfl, by cases rev <;> simp [view, dropTableToTable]⟩
+    simp [clean] at hc
+    obtain ⟨hf, hix⟩ := hc
+    subst hf
+    refine ⟨_, _, rfl, rfl, ?_⟩
+    cases rev with
+    | none => simp [view, dropTableToTable]
+    | some r => simp at hix; simp [view, dropTableToTable, hix]
   | addColumn t s col kw =>
     simp [clean] at hc; subst hc
     exact ⟨_, _, rfl, rfl, by simp [view]⟩
